@@ -135,6 +135,22 @@ def run(ctx: Ctx) -> None:
                              "call_sites": eng.call_sites, "fixpoint_rounds": eng.rounds, "blocker_sites_seen": sorted(eng.blocker_sites),
                              "buffer_attributes_blocked": {f"{k[0]}.{k[1]}": v for k, v in eng.state.items() if v}}
     ctx.floor(rule, 450)
+    # buffers registered on the evaluation path (u, v, p, ...) are observable state: regularisers read transform.v, inverses are built
+    # from it. Each must carry the graph of the parameters it was computed from.
+    brule = "E8.buffer-graph"
+    ctx.rule(brule, "every buffer / attribute a transformation model writes on its evaluation path (update() and what forward / tensor / "
+                    "disp reach) from its learnable state is written without a gradient blocker in between (detach, .data, no_grad, item, "
+                    "rounding, re-leafing): transform.v, transform.u, transform.p stay connected to the parameters")
+    for (cls_key, attr) in sorted(eng.state_seen | set(eng.state)):
+        via = eng.state.get((cls_key, attr))
+        ctx.ob(brule, f"{cls_key}.{attr}", not via)
+        if via:
+            fi_b = next((f for f in ctx.prog.modules[cls_key.split(":")[0]].classes[cls_key.split(":")[1]].methods.values() if f.name == "update"), None)
+            ctx.report(brule, fi_b, f"class={cls_key} buffer={attr} blocker={via}",
+                       f"{cls_key}.{attr} is written on the evaluation path from the module's parameters through a gradient blocker "
+                       f"({via}): consumers of this buffer (regularisers on transform.{attr}, inverses built from it) get no gradient",
+                       where=cls_key)
+    ctx.floor(brule, 4)
     guard_placement(ctx, FUNC_MODULES + [m for m in CLASS_MODULES if m in ctx.prog.modules])
     from .. import autograd_lint
     autograd_lint.saved_inplace(ctx, FUNC_MODULES + [m for m in CLASS_MODULES if m in ctx.prog.modules])
